@@ -10,7 +10,8 @@ trap 'git -C /repo worktree remove --force "$W" >/dev/null 2>&1; rm -rf "$W" /tm
 demo=$(ls "$src" | grep -E '_test\.go$' | head -1)
 democmd=$(cat "$src/demo_cmd.txt" 2>/dev/null | grep -E "go (test|run)" | head -1 | sed 's/^.*&& *//; s/^export [^;&]*[;&]* *//')
 demodir=$(grep -oE '\./[A-Za-z0-9_/.-]+' <<<"$democmd" | head -1)
-[ -n "$demo" ] && [ -n "$demodir" ] && cp "$src/$demo" "$W/$demodir/" 
+[ -z "$demodir" ] && demodir=.
+[ -n "$demo" ] && cp "$src/$demo" "$W/$demodir/"
 ( cd "$W" && eval "$democmd" >/tmp/seedout-$name-$$.pre 2>&1 ); pre=$?
 ( cd "$W" && git apply "$src/patch.diff" ) || { echo "SEED $name: patch does not apply"; exit 2; }
 ( cd "$W" && go build ./... ) || { echo "SEED $name: does not build"; exit 2; }
